@@ -390,7 +390,11 @@ func (e *engine) Run(t *tape.Tape, trace bool) core.Result {
 
 func (r *run) fail(class, detail, format string, a ...interface{}) {
 	if r.res.Viol == nil {
-		r.res.Viol = &core.Violation{Class: class, Detail: detail, Msg: fmt.Sprintf(format, a...)}
+		msg := fmt.Sprintf(format, a...)
+		if len(msg) > 3000 {
+			msg = msg[:1500] + fmt.Sprintf(" … (%d characters omitted) … ", len(msg)-3000) + msg[len(msg)-1500:]
+		}
+		r.res.Viol = &core.Violation{Class: class, Detail: detail, Msg: msg}
 		r.log.Violation(class, r.res.Viol.Msg)
 	}
 }
@@ -658,6 +662,12 @@ func (g *gctx) pt() geom.Point {
 
 func (g *gctx) pts(max int, label string) []geom.Point {
 	n := g.r.t.Choose(max+1, label)
+	if g.r.t.OneIn(400, "big-vertex-run") {
+		// thousands of vertices in one run (any block-wise or parallel handling
+		// of long runs has its seams here)
+		n = 1000 + g.r.t.Choose(4000, "big-vertex-run-n")
+		g.r.res.Probe("vertex-run>=1000")
+	}
 	out := make([]geom.Point, n)
 	for i := range out {
 		out[i] = g.pt()
